@@ -12,7 +12,7 @@ P = {
          "3/C15"),
  "C01": ("hist", "exploration",
          "round-trip oracle over seeded random histories in a testing/synctest virtual-time bubble (monitored metastore/KMS/AEAD/secret factory)",
-         "Seeded random histories interleave encrypt/store, decrypt/load through the same, another and a brand-new factory, session and factory churn with random cache policies (all five key-cache policies, capacities 1..1000, shared IK cache, session cache, no cache, both secure-memory implementations), clock advances across precision/revoke/lifetime boundaries and out-of-band revocations; every decrypt is compared with the recorded payload, caller buffers are compared before/after, and a final sweep decrypts every record through a fresh factory; metastore reads, KMS calls and secure-memory allocations fail transiently and external calls take virtual time; half of the histories run end to end over a real metastore plug-in (DynamoDB v1/v2 on the semantic fake, SQL on the mini SQL engine). Real-goroutine rounds let 6 cold factories encrypt for one new partition at once over each back end with their key inserts held at a barrier, and a cold factory must decrypt every record. Held on the histories executed (counts in the evidence).",
+         "Seeded random histories interleave encrypt/store, decrypt/load through the same, another and a brand-new factory, session and factory churn with random cache policies (all five key-cache policies, capacities 1..1000, shared IK cache, session cache, no cache, both secure-memory implementations), clock advances across precision/revoke/lifetime boundaries and out-of-band revocations; every decrypt is compared with the recorded payload, caller buffers are compared before/after, and a final sweep decrypts every record through a fresh factory; metastore reads, KMS calls and secure-memory allocations fail transiently and external calls take virtual time; half of the histories run end to end over a real metastore plug-in (DynamoDB v1/v2 on the semantic fake, SQL on the mini SQL engine). Real-goroutine rounds let 6 cold factories encrypt for one new partition at once over each back end with their key inserts held at a barrier, and a cold factory must decrypt every record, as must a late process whose sessions hit its cold system-key cache together. A migration scenario reads legacy (unsuffixed) records after the region suffix is switched on, in two regions. Held on the histories executed (counts in the evidence).",
          "Trusted: testing/synctest virtual clock, in-memory metastore / DynamoDB fake and StaticKMS as stand-ins for real back ends, Go's AES-GCM.",
          "3/C01"),
  "C03": ("hist", "exploration",
@@ -57,7 +57,7 @@ P = {
          "3/C14"),
  "C17": ("awskms", "fault_enumeration",
          "exhaustive regional failure enumeration over fake AWS KMS clients behind both plug-in client interfaces, cross-version",
-         "For 1..3 (quick) / 1..4 (thorough) regions: every preferred region x every subset failing GenerateDataKey x every subset failing Encrypt; for each envelope every non-empty configured subset x preferred x every subset failing Decrypt, for v1->v1, v2->v2, v1->v2, v2->v1 and several builds (map orders; every other v2 build starts from a base aws.Config that already carries a region); regions that hang for 1 s .. 10 min of virtual time before they time out, with context-aware fakes. Oracle over results and the per-region call log: success iff a configured region with an entry can decrypt, identical bytes, preferred-first order for Decrypt and GenerateDataKey, envelope entries = regions that succeeded, plaintext data key wiped, SK bytes never in a request.",
+         "For 1..3 (quick) / 1..4 (thorough) regions: every preferred region x every subset failing GenerateDataKey x every subset failing Encrypt; for each envelope every non-empty configured subset x preferred x every subset failing Decrypt, for v1->v1, v2->v2, v1->v2, v2->v1 and several builds (map orders; every other v2 build starts from a base aws.Config that already carries a region); regions that hang for 1 s .. 10 min of virtual time before they time out, with context-aware fakes; keys configured by alias ARN (KMS answers with the key ARN); a failing region next to a slow healthy one; client-side timeout errors at unwrap. Every envelope must open under the generated data key only, each entry must be that region's wrapping of it, and no plaintext data key may be inside. Oracle over results and the per-region call log: success iff a configured region with an entry can decrypt, identical bytes, preferred-first order for Decrypt and GenerateDataKey, envelope entries = regions that succeeded, plaintext data key wiped, SK bytes never in a request.",
          "Trusted: fake regional clients written from the KMS API semantics. Real AWS is out of reach.",
          "3/C17"),
  "C20": ("hist", "exploration",
@@ -67,7 +67,7 @@ P = {
          "3/C20"),
  "C06": ("inputs", "exploration",
          "adversarial id-pair generation from the key-id naming scheme executed through the real decrypt path; err != nil oracle; known-finding filter by signature",
-         "Pairs of distinct partition ids derived from the naming scheme (P vs P_service_product[_region], prefixes, suffixes, case/unicode variants and simple-fold twins, ids that would match if ids were interpreted as regex/glob/LIKE patterns, ids embedding _IK_/_SK_, 255-byte ids, random) for four service/product shapes are executed in both directions, cold and warm, with per-session, shared-IK and session caches, over a plain metastore, a suffix-advertising wrapper and the real DynamoDB v1/v2 metastores with region suffix on the fake: a session for B must return an error for A's record each of three times in a row (once more after one of its own records); empty ids must be refused. A lifecycle pass uses sessions after Close, closes them twice and interleaves other partitions' sessions.",
+         "Pairs of distinct partition ids derived from the naming scheme (P vs P_service_product[_region], prefixes, suffixes, case/unicode variants and simple-fold twins, ids that would match if ids were interpreted as regex/glob/LIKE patterns, ids embedding _IK_/_SK_, 255-byte ids, random) for four service/product shapes are executed in both directions, cold and warm, with per-session, shared-IK and session caches, over a plain metastore, a suffix-advertising wrapper and the real DynamoDB v1/v2 metastores with region suffix on the fake: a session for B must return an error for A's record each of three times in a row (once more after one of its own records); empty ids must be refused. A lifecycle pass uses sessions after Close, closes them twice and interleaves other partitions' sessions; a real-goroutine pass opens sessions for several partitions concurrently and presents each other's records. Ids include invalid UTF-8 bytes and format verbs.",
          "Known finding F3 (suffixed partition accepts ids that merely start with its unsuffixed IK id) is excused by a narrow signature; every other foreign decrypt fails the check. Region suffixes are assumed underscore-free.",
          "3/C06"),
  "C07": ("inputs", "exploration",
